@@ -7,6 +7,12 @@ ROOT = os.path.dirname(os.path.dirname(os.path.abspath(__file__)))
 ALL = ["C%02d" % i for i in range(1, 21)]
 
 CHECKS = {
+    "C08": dict(
+        technique="Lean 4 invariant proof over a transition system whose atomic steps are the lock regions of outputstream.go, for any number of concurrent GetNext readers and every interleaving; sequential + steered-concurrent (park/burst/cancel) differential runs of the real OutputStream against the model and a sorted-map oracle",
+        text="Machine-checked proof, by one inductive invariant over all reachable configurations of the concurrent system (any number of readers, any interleaving of Add/Delete/Get/Interrupt/cancel and reader phases): what GetNext returns is the least stored batch above x at the instant it returns; a reader blocked in Cond.Wait has no stored successor (no lost wake-up); a cancelled, woken reader returns; no step panics; Get refines a plain map. The failed proof of an earlier version exposed a real lost-wake-up defect, since repaired (fix commits listed in known_findings.json).",
+        design_ref="DESIGN.md §4 C08",
+        note="Trusts: Lean kernel; sync.RWMutex/Cond semantics (lock regions are atomic, Wait releases atomically, Broadcast wakes all); goleveldb as sorted map; step boundaries = lock regions (read off the code by hand, exercised by the steered concurrent runs); cache eviction not modelled (invisible under the proved cache-coherence invariant).",
+    ),
     "C04": dict(
         technique="Lean 4 proof over an executable model of the getMessages resume loop (prefix/exactly-once theorems for one connection and for a client over any number of connections with arbitrary cuts and node lags), tied to the real getMessages goroutine + real OutputStream by a differential run with concurrent Adds",
         text="Machine-checked proof that a connection resuming at lastseen=(id,reply) on a node of any lag delivers exactly a prefix of the messages positioned after (id,reply), in order (C04_conn_prefix/complete, lag irrelevant), and that a client reading over any number of successive connections, cut anywhere incl. inside a batch and resuming with the last message it received, has in total received a prefix of its filtered stream: none missing, none twice (C04_client_exactly_once). The model is compared with the real getMessages goroutine on every run.",
